@@ -44,15 +44,15 @@ BAD = ['bad', 0]
 
 
 def same_kind(x, y) -> bool:
-  """The callable of collapse option "fn" (`Fn` in Diff.tla): two objects of any classes, or two dicts."""
+  """The callable of collapse option "fn" (`Fn` in Diff.tla): two objects of any classes, two dicts or two lists."""
   return ((isinstance(x, pg.Object) and isinstance(y, pg.Object))
-          or (isinstance(x, dict) and isinstance(y, dict)))
+          or (isinstance(x, dict) and isinstance(y, dict))
+          or (isinstance(x, list) and isinstance(y, list)))
 
 
 COLLAPSE_ARG = {'same_type': 'same_type', 'all': True, 'none': False, 'fn': same_kind}
 COLLAPSE_SRC = {'same_type': "'same_type'", 'all': 'True', 'none': 'False',
-                'fn': 'lambda x, y: (isinstance(x, pg.Object) and isinstance(y, pg.Object)) or '
-                      '(isinstance(x, dict) and isinstance(y, dict))'}
+                'fn': 'lambda x, y: any(isinstance(x, t) and isinstance(y, t) for t in (pg.Object, dict, list))'}
 
 
 class Tables:
@@ -197,7 +197,10 @@ def observe_cell(a, b, c: str, m: str, f: str, tb: Tables) -> dict:
 
 
 def _snapshot(x) -> str:
-  return json.dumps(pg.to_json(x))
+  try:
+    return json.dumps(pg.to_json(x))
+  except Exception as ex:  # pylint: disable=broad-except
+    return f'<to_json raised {type(ex).__name__}>'
 
 
 def observe_pair(ea: dict, eb: dict, tb: Tables) -> Tuple[List[str], int, int, int]:
@@ -227,8 +230,14 @@ _CTX: Dict[str, Any] = {}
 
 
 def _row(a_ix: int):
+  """One row of the table; results are interned per row (most cells of a row share a few results)."""
   universe, tb = _CTX['universe'], _CTX['tb']
-  return a_ix, [observe_pair(universe[a_ix], eb, tb) for eb in universe]
+  local: Dict[str, int] = {}
+  row = []
+  for eb in universe:
+    cells, eq, pure, adopted = observe_pair(universe[a_ix], eb, tb)
+    row.append(([local.setdefault(s, len(local)) for s in cells], eq, pure, adopted))
+  return a_ix, list(local), row
 
 
 def observe(data: dict, procs: int = 0) -> Tuple[dict, dict]:
@@ -242,11 +251,11 @@ def observe(data: dict, procs: int = 0) -> Tuple[dict, dict]:
   if procs > 1:
     ctx = multiprocessing.get_context('fork')
     with concurrent.futures.ProcessPoolExecutor(max_workers=procs, mp_context=ctx) as ex:
-      for a_ix, row in ex.map(_row, range(n), chunksize=1):
-        rows[a_ix] = row
+      for a_ix, strs, row in ex.map(_row, range(n), chunksize=1):
+        rows[a_ix] = (strs, row)
   else:
     for a_ix in range(n):
-      rows[a_ix] = _row(a_ix)[1]
+      rows[a_ix] = _row(a_ix)[1:]
   # intern results and values (deterministic: row-major order)
   res_ix: Dict[str, int] = {}
   val_ix: Dict[str, int] = {}
@@ -272,8 +281,10 @@ def observe(data: dict, procs: int = 0) -> Tuple[dict, dict]:
   counters = {'calls': 0, 'raised': 0, 'notflat': 0, 'adopted_inputs': 0, 'impure_pairs': 0}
   for a_ix in range(n):
     crow, erow, prow = [], [], []
-    for cells, q, p, adopted in rows[a_ix]:
-      crow.append([result(s) for s in cells])
+    strs, row = rows[a_ix]
+    ids = [result(s) for s in strs]
+    for cells, q, p, adopted in row:
+      crow.append([ids[k] for k in cells])
       erow.append(q)
       prow.append(p)
       counters['calls'] += len(cells)
